@@ -467,6 +467,7 @@ static struct {
     ABT_thread th;
     int nsteps[2], kind[2][SQ_MAX], pool[2][SQ_MAX];
     volatile int life, cb_calls, done[2], go;
+    int parting_request, revive_pool, cb_at_end;
     long migrations, other_moves;
 } Q;
 static void sq_cb(ABT_thread th, void *arg)
@@ -493,6 +494,12 @@ static void sq_fn(void *arg)
     ABT_OK(ABT_self_get_thread(&self));
     ABT_OK(ABT_self_get_last_pool(&lp));
     int cur = sq_pool_index(lp);
+    if (life == 1) {
+        /* a request that the first life left unserved died with that life */
+        SIM_CHECK(cur == Q.revive_pool, "migrate:stale-request-after-revive", "the unit revived into pool %d starts its second life in pool %d%s", Q.revive_pool, cur,
+                  Q.parting_request ? " (its first life ended with an accepted, unserved migration request)" : "");
+        SIM_CHECK(Q.cb_calls == Q.cb_at_end, "migrate:callback-without-migration", "the migration callback ran %d times between the end of the first life and the start of the second", Q.cb_calls - Q.cb_at_end);
+    }
     for (int i = 0; i < Q.nsteps[life]; i++) {
         int p = Q.pool[life][i];
         int cb0 = Q.cb_calls;
@@ -521,6 +528,14 @@ static void sq_fn(void *arg)
         }
         sim_progress();
     }
+    if (life == 0 && Q.parting_request && Q.rt.npools > 1) {
+        /* accepted, but the unit returns before any scheduling point: nothing may come of it */
+        int p = (cur + 1 + (Q.parting_request - 1) % (Q.rt.npools - 1)) % Q.rt.npools;
+        int rc = ABT_thread_migrate_to_pool(self, Q.rt.pools[p]);
+        SIM_CHECK(rc == ABT_SUCCESS, "migrate:request-rejected", "ABT_thread_migrate_to_pool(pool %d) of a unit in pool %d returned %d", p, cur, rc);
+        sim_count("c13.requests_left_unserved_at_termination", 1);
+    }
+    Q.cb_at_end = Q.cb_calls;
     Q.done[life] = 1;
 }
 static void run_c13_sequence(void)
@@ -538,6 +553,7 @@ static void run_c13_sequence(void)
         }
         sim_note("| ");
     }
+    Q.parting_request = plan_bool() ? 1 + (int)plan_n(8) : 0;
     int how = (int)plan_n(3);
     if (how == 0) {
         ABT_OK(ABT_thread_create(rt->pools[plan_n((uint32_t)rt->npools)], sq_fn, NULL, ABT_THREAD_ATTR_NULL, &Q.th));
@@ -569,7 +585,8 @@ static void run_c13_sequence(void)
     if (plan_bool()) {
         /* a second life in another pool: earlier targets are requested again */
         Q.life = 1;
-        ABT_OK(ABT_thread_revive(rt->pools[plan_n((uint32_t)rt->npools)], sq_fn, NULL, &Q.th));
+        Q.revive_pool = (int)plan_n((uint32_t)rt->npools);
+        ABT_OK(ABT_thread_revive(rt->pools[Q.revive_pool], sq_fn, NULL, &Q.th));
         ABT_OK(ABT_thread_join(Q.th));
         SIM_CHECK(Q.done[1], "once:not-exactly-once", "the revived unit did not finish");
     }
